@@ -20,10 +20,12 @@ ASSUMPTIONS = ["main sweep flood = 4, seeds {5, 7}; letters are exactly represen
 
 FLOOD = 4.0
 SEEDS = (5.0, 7.0)
-L = dict(O=0.0, F=4.5, S=6.0, B=9.0, N=np.nan, M=-6.0, E=4.0, T=5.0, W=-9.0, G=7.0)
+L = dict(O=0.0, F=4.5, S=6.0, B=9.0, N=np.nan, M=-6.0, E=4.0, T=5.0, W=-9.0, G=7.0,
+         # double-precision values a few parts in 1e8 from a threshold (single precision cannot tell them from it):
+         e=4.0 * (1 - 3e-8), u=5.0 * (1 + 3e-8), m=-4.0 * (1 - 3e-8), f=4.0 * (1 + 3e-8), t=5.0 * (1 - 3e-8))
 BLOCK = 4096
 
-GRIDS_QUICK = [((1, 1), "OFSBNMETW"), ((1, 2), "OFSBNMETW"), ((1, 3), "OFSBNMET"), ((1, 4), "OFSBNM"), ((1, 5), "OFSBN"),
+GRIDS_QUICK = [((1, 3), "OeufSt"), ((2, 2), "OeumS"), ((1, 4), "eufS"), ((1, 1), "OFSBNMETW"), ((1, 2), "OFSBNMETW"), ((1, 3), "OFSBNMET"), ((1, 4), "OFSBNM"), ((1, 5), "OFSBN"),
                ((5, 1), "OFSBN"), ((2, 2), "OFSBNMETWG"), ((3, 3), "OFS"), ((2, 3), "OFSBNME"), ((3, 3), "OFB")]
 GRIDS_THOROUGH = GRIDS_QUICK + [((3, 3), "OFSN"), ((3, 3), "OFBM"), ((3, 4), "OFS"), ((4, 3), "OFB"), ((4, 4), "OS"),
                                 ((2, 4), "OFSBN"), ((4, 4), "OF"), ((2, 3), "OFSBNMETW"), ((3, 5), "OF"), ((3, 5), "OS")]
